@@ -1306,7 +1306,7 @@ func (c *layoutCtx) extractDec(evs []*Event, sink func(wireIDs []int, loop int) 
 					if name, idx, v, okS := sink([]int{nx.ID}, 0); okS {
 						if b := stripCT(v); b.Op == "bulkints" && len(b.Args) == 2 && stripCT(b.Args[0]).Op == "wire" && stripCT(b.Args[0]).ID == nx.ID && affEq(b.Args[1], wv) {
 							if st, isSl := b.Type.Underlying().(*types.Slice); isSl {
-								if k, okK := fixedSize(st.Elem()); okK && affOf(nx.Size).Equal(affOf(wv).Scale(k)) {
+								if k, okK := fixedSize(st.Elem()); okK && (affOf(nx.Size).Equal(affOf(wv).Scale(k)) || (k == -1 && countTimesSize(nx.Size, wv))) {
 									ord := b.Name
 									if k == 1 {
 										ord = ""
@@ -1536,6 +1536,13 @@ func (c *layoutCtx) elemLayoutDec(rep *Event, stored *Val) *FieldLayout {
 			if f.Kind == "obj" || f.Kind == "dyn" {
 				if f.RecvVal != nil && !elem.Contains(func(x *Val) bool { return x.Key() == stripCT(f.RecvVal).Key() }) {
 					f.ValueOps = append(f.ValueOps, "decoded object is not the element appended")
+				}
+				// every element is an object of its own: what Decode is called on is made inside the iteration (ids are
+				// handed out in execution order: anything made before the loop started has a smaller id than the loop)
+				if f.RecvVal != nil && rep.LoopID > 0 && f.RecvVal.Contains(func(x *Val) bool {
+					return (x.Op == "dyncall" || x.Op == "alloc") && x.ID > 0 && x.ID < rep.LoopID
+				}) {
+					f.ValueOps = append(f.ValueOps, "every element is decoded into one and the same object, made before the loop: "+f.RecvVal.Pretty())
 				}
 			}
 		}
@@ -2160,6 +2167,22 @@ func manualIntAt(v *Val, id int) (lo int64, it types.Type, ord string, ok bool) 
 	return lo, it, ord, true
 }
 
+// countTimesSize: in a generic body, n is count * binary.Size(<an element>) – the bytes of count elements of the
+// element type, whatever its width.
+func countTimesSize(n, count *Val) bool {
+	n = stripCT(n)
+	if n == nil || n.Op != "binop" || n.Name != "*" || len(n.Args) != 2 {
+		return false
+	}
+	for i := 0; i < 2; i++ {
+		c, sz := stripCT(n.Args[i]), stripCT(n.Args[1-i])
+		if sz != nil && sz.Op == "call" && sz.Name == "encoding/binary.Size" && affEq(c, count) {
+			return true
+		}
+	}
+	return false
+}
+
 // wireOffset: v is the block wire#id or a slice of it reached through any number of re-slicings with constant lower
 // bounds: the offset of its first byte in the block, and the end of what it spans (-1: the end of the block).
 func wireOffset(v *Val, id int) (off, hi int64, ok bool) {
@@ -2228,6 +2251,35 @@ func manualInt(v *Val, id int, n int64) (types.Type, string, bool) {
 			outer = v.Type
 		}
 		v = stripCT(v.Args[0])
+	}
+	// one byte taken out of a one-byte read: Next(1)[0]
+	if v.Op == "elem" && len(v.Args) == 2 && n == 1 {
+		if w := stripCT(v.Args[0]); w != nil && w.Op == "wire" && w.ID == id {
+			if k, isC := v.Args[1].Int64(); isC && k == 0 {
+				it := types.Type(types.Typ[types.Uint8])
+				if outer != nil {
+					if osz, okS := fixedSize(outer); !okS || osz != 1 {
+						return nil, "", false
+					}
+					it = outer
+				}
+				return it, "", true
+			}
+		}
+	}
+	// a float from its IEEE 754 bits: math.Float32frombits(UintN(…)) – what binary.Read renders
+	if v.Op == "call" && len(v.Args) == 1 && outer == nil && (v.Name == "math.Float32frombits" || v.Name == "math.Float64frombits") {
+		it, ord, ok := manualInt(v.Args[0], id, n)
+		if !ok {
+			return nil, "", false
+		}
+		if v.Name == "math.Float32frombits" && typeStr(it) == "uint32" {
+			return types.Typ[types.Float32], ord, true
+		}
+		if v.Name == "math.Float64frombits" && typeStr(it) == "uint64" {
+			return types.Typ[types.Float64], ord, true
+		}
+		return nil, "", false
 	}
 	if v.Op != "call" || len(v.Args) != 1 {
 		return nil, "", false
